@@ -12,7 +12,7 @@ import (
 
 // CallFunction runs fn with args (and closure environment env).
 func (m *Machine) CallFunction(fn *ssa.Function, args []Value, env []Value) Value {
-	if repl, ok := m.P.Overrides[fn.String()]; ok {
+	if repl, ok := m.P.Overrides[fn.String()]; ok && !m.Opt.NoOverrides {
 		r := m.P.funcByName[repl]
 		if r == nil {
 			m.unsupported("override target not found: " + repl)
@@ -30,7 +30,7 @@ func (m *Machine) CallFunction(fn *ssa.Function, args []Value, env []Value) Valu
 			return nil
 		}
 	}
-	if in := m.P.lookupIntrinsic(fn); in != nil {
+	if in := m.P.lookupIntrinsic(fn); in != nil && !m.Opt.RealBodies[intrinsicKey(fn)] {
 		m.Res.IntrinsUsed[intrinsicKey(fn)] = true
 		return in(m, fn, args)
 	}
